@@ -252,7 +252,7 @@ func init() {
 			for i := 0; i < nd; i++ {
 				cs = append(cs, Case{Kind: "diff", Seed: h.Mix(seed, 0xC15B, uint64(i))})
 			}
-			cs = append(cs, Case{Kind: "pre"}, Case{Kind: "mgrid"})
+			cs = append(cs, Case{Kind: "pre"}, Case{Kind: "mgrid"}, Case{Kind: "stackedge"})
 			return cs
 		},
 		Run: runC15,
@@ -395,6 +395,46 @@ func runC15(c Case, tier string) (res CaseResult) {
 				res.Shape("pre", f, op)
 				if ir.Panic != "" || ir.ErrClass != "invalid_opcode" {
 					res.Fail(Key("pre-cancun-valid", fmt.Sprintf("op%02x", op)), fmt.Sprintf("byte %#x on fork %s ended with %q / %s, expected an invalid instruction", op, f, ir.ErrClass, firstLine(ir.Panic)))
+				}
+			}
+		}
+		res.Evals = n
+	case "stackedge":
+		// each Cancun instruction at every stack height near its bounds: TLOAD needs 1 item and leaves 1 (so it must work
+		// on a full stack of 1024), TSTORE needs 2, MCOPY needs 3; fewer items underflow, nothing else may fail
+		n := int64(0)
+		type cop struct {
+			op         byte
+			name       string
+			pops, push int
+		}
+		for _, f := range []h.Fork{h.Cancun, h.Prague} {
+			for _, co := range []cop{{h.TLOAD, "TLOAD", 1, 1}, {h.TSTORE, "TSTORE", 2, 0}, {h.MCOPY, "MCOPY", 3, 0}} {
+				for _, hgt := range []int{0, 1, 2, 3, 4, 5, 1000, 1021, 1022, 1023, 1024} {
+					a := h.NewAsm()
+					for i := 0; i < hgt; i++ {
+						a.Op(h.PUSH1, byte(i%5))
+					}
+					a.Op(co.op, h.STOP)
+					fs := h.NewForkSession(h.BaseWorld([][]byte{a.Bytes()}), h.EnvSpec{Fork: f}, h.ForkOpts{Debug: true, RecSteps: true, LightMem: true})
+					ir := fs.Invoke(h.TxSpec{Entry: h.ECall, From: h.Sender, To: h.ContractAddr(0), Gas: 2_000_000})
+					n++
+					desc := fmt.Sprintf("%s with %d items on the stack on %s", co.name, hgt, f)
+					if ir.Panic != "" {
+						res.Fail(Key("panic", "stackedge"), "panic: "+firstLine(ir.Panic), desc, clip(ir.PanicStk, 1500))
+						continue
+					}
+					want := ""
+					if hgt < co.pops {
+						want = "stack_underflow"
+					} else if hgt-co.pops+co.push > 1024 {
+						want = "stack_overflow"
+					}
+					if ir.ErrClass != want {
+						res.Fail(Key("stack-bounds", co.name), fmt.Sprintf("ended with %q, expected %q (the instruction pops %d and pushes %d)", ir.ErrClass, want, co.pops, co.push), desc)
+					}
+					res.Shape("stackedge", co.name, hgt, ir.ErrClass)
+					res.Count("stack_edge_cases", 1)
 				}
 			}
 		}
